@@ -50,6 +50,21 @@ def lstep (s : Sys) : LOp → Sys
 
 def lrun (s : Sys) (ops : List LOp) : Sys := ops.foldl lstep s
 
+/-- every (phase, resources_acquired, execution_complete, validation_passed): the complete domain of `advance` with
+    the default checkpoints -/
+def advanceDomain : List (Phase × Bool × Bool × Bool) :=
+  [Phase.g0, .g1, .s, .g2, .m].flatMap fun ph =>
+    [false, true].flatMap fun a => [false, true].flatMap fun b => [false, true].map fun c => (ph, a, b, c)
+
+/-- what the model's `advance` does to a context that is in phase `ph` with the three flags as given and entered its
+    phase at time 0, when the clock shows 1: (passed?, phase afterwards, phase time written?, anything else — id,
+    priority, tracked resources, flags, creation time, exemption — different?) -/
+def advanceRow (ph : Phase) (a b c : Bool) : Bool × Phase × Bool × Bool :=
+  let c0 : Ctx := { id := 5, prio := 7, phase := ph, phaseAt := 0, acquired := [1], resAcq := a, execDone := b,
+                    valPassed := c, created := 0, exempt := false }
+  let r := advance 1 c0 .base
+  (r.2, r.1.phase, r.1.phaseAt == 1, r.1 != { c0 with phase := r.1.phase, phaseAt := r.1.phaseAt })
+
 /-- what the victim rule of the watchdog reads of a context -/
 def victimKey (c : Ctx) : Nat × Int × Nat := (c.id, c.prio, c.created)
 
